@@ -537,7 +537,7 @@ func main() {
 		"trace.none", "trace.valid", "trace.valid-unsampled", "trace.valid+state", "trace.valid+badstate", "trace.bad:short", "trace.bad:upper",
 		"trace.bad:zero-trace", "trace.bad:zero-span", "trace.bad:version-ff", "trace.bad:nonhex", "trace.bad:parts", "trace.bad:garbage", "trace.bad:trailing")
 
-	n := r.N(500, 20000)
+	n := r.N(500, 10000)
 	workers := 4
 	if r.Thorough() {
 		workers = min(16, runtime.NumCPU())
